@@ -397,7 +397,7 @@ def _chunk(chunk, prop):
     foreign = _build_foreign()
     for kind, spec in chunk:
         try:
-            tree, nodes = gen.build(spec)
+            tree, nodes = gen.build(spec, node_ids="even")  # every other node with a caller-supplied node_id
             bad = view.wf_violations(tree)
             if bad:
                 res.errors.append(f"{spec.short()}: built tree is not well-formed: {bad}")
@@ -472,7 +472,7 @@ def replay(witness: dict, prop: str) -> list[tuple[str, str]]:
 
         return c15.replay(witness, prop)
     spec = spec_from_json(witness["spec"])
-    tree, nodes = gen.build(spec)
+    tree, nodes = gen.build(spec, node_ids="even")  # every other node with a caller-supplied node_id
     vs = check_tree(prop, tree, nodes, {"kind": witness.get("kind"), "spec": witness["spec"]}, foreign=_build_foreign())
     out = []
     for v in vs:
